@@ -516,6 +516,16 @@ def run(index, rep, tier):
                       "%s pops the caller's taxon_namespace out of kwargs and can reach `%s` without putting it back: with `taxon_namespace=ns` given, every stream is read into a fresh namespace - concatenate() then raises ValueError (different namespaces) for two or more sources, and for one source the result is over another namespace than the caller's, which stays empty" % (f.qualname, norm_stmt(w.stmt)[:60] if w is not None and w.stmt is not None else ""))
         rep.floor("R19.18", "functions that pop the namespace and forward **kwargs", 1, n18)
 
+    # ---- R19.19 remove raises, discard does not
+    with rep.section("R19.19"):
+        rep.rule("R19.19", "remove raises, discard does not: CharacterMatrix.remove_sequences is documented to raise KeyError for a taxon that has no row (discard_sequences is the forgiving twin) - its deletion is a `del map[taxon]` or a one-argument pop(), never `pop(taxon, <default>)` and never behind a membership test, which would turn it into a second discard_sequences and hide a taxon of another namespace")
+        rs = index.function("dendropy.datamodel.charmatrixmodel.CharacterMatrix.remove_sequences")
+        dels = [x for x in ast.walk(rs.node) if isinstance(x, ast.Delete) and any(isinstance(t, ast.Subscript) and "_taxon_sequence_map" in norm(t.value) for t in x.targets)]
+        pops1 = [c for c in calls_in(rs.node) if call_name(c) == "pop" and "_taxon_sequence_map" in norm(c.func.value) and len(c.args) == 1 and not c.keywords]
+        soft = [c for c in calls_in(rs.node) if call_name(c) in ("pop", "discard") and "_taxon_sequence_map" in norm(c.func.value) and (len(c.args) > 1 or call_name(c) == "discard")]
+        rep.check(bool(dels or pops1) and not soft, "R19.19", rs.qualname, "a missing row is passed over silently", fn_where(rs, soft[0] if soft else None), "remove_sequences deletes with del / pop(k): a missing row raises KeyError",
+                  "CharacterMatrix.remove_sequences deletes with `%s`: a taxon without a row - or a taxon of another namespace - is passed over in silence where the documentation promises KeyError; the method has become a copy of discard_sequences" % (norm(soft[0])[:60] if soft else "no raising deletion"))
+
 
 def _r19_3(rep, fi, seeds):
     t = tainted_names(fi, seeds)
